@@ -27,6 +27,14 @@ const DML: &[&str] = &[
     "UPDATE t SET v = 7",
     "DELETE FROM t WHERE id = 2",
     "DELETE FROM t WHERE v >= 20",
+    // the DELETE-all fast path, a key-changing update, re-insertion of a key, a statement that fails
+    // on its second row, and DML on the second table
+    "DELETE FROM t",
+    "UPDATE t SET id = id + 10 WHERE id = 1",
+    "INSERT INTO t VALUES (2, 21)",
+    "INSERT INTO t VALUES (5, 50), (1, 99)",
+    "UPDATE u SET w = w + 1",
+    "DELETE FROM u WHERE k = 1",
 ];
 
 const NAMES: &[&str] = &["s1", "s2", "s3"];
@@ -103,7 +111,10 @@ impl Spec for C14Spec {
     fn step(&self, pre: &Database, m: &Model, op: &str, post: &Database, out: &Out, hist: &[String], rep: &Report) -> Option<Model> {
         let mut m2 = m.clone();
         if let Out::Panic(msg) = out {
-            rep.violation(&[("kind", "panic".into()), ("op", op.split_whitespace().next().unwrap_or("").to_string())], format!("`{}` panicked: {}", op, msg), case(hist));
+            // only a panic of a savepoint operation concerns this property (DML panics are C24's)
+            if op.starts_with("SAVEPOINT") || op.starts_with("ROLLBACK") || op.starts_with("RELEASE") {
+                rep.violation(&[("kind", "panic".into()), ("op", op.split_whitespace().next().unwrap_or("").to_string())], format!("`{}` panicked: {}", op, msg), case(hist));
+            }
             return None;
         }
         let pre_b = bags(pre);
